@@ -87,6 +87,57 @@ impl Presentation {
     }
 }
 
+/// A plain `#[test]` (source text) that makes the same call with literals and no explorer. `expectation`
+/// is a Rust expression over `r` (the call's result), e.g. `r.is_err()`.
+pub fn unit_test_for(pres: &Presentation, expectation: &str, comment: &str) -> String {
+    let p = pres.proto;
+    let v = p.version();
+    let purpose = if p.is_local() { "Local" } else { "Public" };
+    let pk = b64::unhex(&pres.pk_hex).unwrap_or_default();
+    let key_lines = match p {
+        Proto::V1L | Proto::V2L | Proto::V3L | Proto::V4L => format!("    let key = PasetoSymmetricKey::<V{v}, Local>::from(Key::<32>::try_from(\"{}\").unwrap());\n", pres.pk_hex),
+        Proto::V2P | Proto::V4P => format!("    let raw = Key::<32>::try_from(\"{}\").unwrap();\n    let key = PasetoAsymmetricPublicKey::<V{v}, Public>::from(&raw);\n", pres.pk_hex),
+        Proto::V3P => format!("    let raw = Key::<49>::try_from(\"{}\").unwrap();\n    let key = PasetoAsymmetricPublicKey::<V3, Public>::try_from(&raw).unwrap();\n", pres.pk_hex),
+        Proto::V1P => format!("    let der: &[u8] = &{:?};\n    let key = PasetoAsymmetricPublicKey::<V1, Public>::from(der);\n", pk),
+    };
+    let footer = pres.footer.as_ref().map(|f| format!("Footer::from({:?})", f));
+    let assertion = if p.has_assertion() { pres.assertion.as_ref().map(|a| format!("ImplicitAssertion::from({:?})", a)) } else { None };
+    let call = match pres.layer {
+        Layer::Core => {
+            let m = if p.is_local() { "try_decrypt" } else { "try_verify" };
+            let f = footer.clone().map(|f| format!("Some({})", f)).unwrap_or_else(|| "None::<Footer>".into());
+            if p.has_assertion() {
+                let a = assertion.clone().map(|a| format!("Some({})", a)).unwrap_or_else(|| "None::<ImplicitAssertion>".into());
+                format!("    let r = Paseto::<V{v}, {purpose}>::{m}(token, &key, {f}, {a});\n")
+            } else {
+                format!("    let r = Paseto::<V{v}, {purpose}>::{m}(token, &key, {f});\n")
+            }
+        }
+        layer => {
+            let ty = if layer == Layer::Generic { "GenericParser" } else { "PasetoParser" };
+            let ctor = if layer == Layer::Generic { "default()" } else { "new()" };
+            let mut c = format!("    let mut parser = {ty}::<V{v}, {purpose}>::{ctor};\n");
+            if let Some(f) = &footer {
+                c.push_str(&format!("    parser.set_footer({});\n", f));
+            }
+            if let Some(a) = &assertion {
+                c.push_str(&format!("    parser.set_implicit_assertion({});\n", a));
+            }
+            c.push_str("    let r = parser.parse(token, &key);\n");
+            c
+        }
+    };
+    let module = match pres.layer {
+        Layer::Core => "core",
+        Layer::Generic => "generic",
+        Layer::Prelude => "prelude",
+    };
+    format!(
+        "#[test]\nfn replay() {{\n    // {comment}\n    use rusty_paseto::{module}::*;\n{key_lines}    let token = {:?};\n{call}    assert!({expectation}, \"{{:?}}\", r.map(|_| ()));\n}}\n",
+        pres.token
+    )
+}
+
 fn norm(o: &Option<String>) -> &str {
     o.as_deref().unwrap_or("")
 }
